@@ -7151,6 +7151,10 @@ moveto_attr(struct lyxp_set *set, const struct lys_module *mod, const char *ncna
          * our attributes are always qualified */
         if (set->val.nodes[i].type == LYXP_NODE_ELEM) {
             for (sub = set->val.nodes[i].node->meta; sub; sub = sub->next) {
+                /* internal metadata are not a part of the data */
+                if (lyd_meta_is_internal(sub)) {
+                    continue;
+                }
 
                 /* check "namespace" */
                 if (mod && (sub->annotation->module != mod)) {
@@ -7278,6 +7282,11 @@ moveto_attr_alldesc(struct lyxp_set *set, const struct lys_module *mod, const ch
          * we have all attributes qualified in lyd tree */
         if (set->val.nodes[i].type == LYXP_NODE_ELEM) {
             for (sub = set->val.nodes[i].node->meta; sub; sub = sub->next) {
+                /* internal metadata are not a part of the data */
+                if (lyd_meta_is_internal(sub)) {
+                    continue;
+                }
+
                 /* check "namespace" */
                 if (mod && (sub->annotation->module != mod)) {
                     continue;
